@@ -47,6 +47,10 @@ Resize(o, n) == /\ o \in MutObjs /\ Live(o) /\ n \in 0..MaxLen
                 /\ Set(o, [i \in 1..n |-> IF i <= Len(arr[o]) THEN arr[o][i] ELSE 0]) /\ Keep
 ResizeFill(o, n, v) == /\ o \in MutObjs /\ Live(o) /\ n \in 0..MaxLen /\ v \in Vals
                        /\ Set(o, [i \in 1..n |-> IF i <= Len(arr[o]) THEN arr[o][i] ELSE v]) /\ Keep
+\* resize(n, a[i]): the fill value is an element of the array itself (as std::vector allows); a
+\* default-constructed / unspecified cell (0) copies as such
+ResizeFillFrom(o, n, i) == /\ o \in MutObjs /\ Live(o) /\ n \in 0..MaxLen /\ i \in 1..Len(arr[o])
+                           /\ Set(o, [j \in 1..n |-> IF j <= Len(arr[o]) THEN arr[o][j] ELSE arr[o][i]]) /\ Keep
 Write(o, i, v) == /\ o \in MutObjs /\ Live(o) /\ i \in 1..Len(arr[o]) /\ v \in Vals
                   /\ Set(o, [arr[o] EXCEPT ![i] = v]) /\ Keep
 
@@ -75,6 +79,7 @@ ANext == \E o \in Objs :
            \/ \E n \in 0..MaxLen : CtorSized(o, n) \/ Resize(o, n) \/ \E v \in Vals : CtorFilled(o, n, v) \/ ResizeFill(o, n, v)
            \/ CtorDefault(o)
            \/ \E i \in 1..MaxLen, v \in Vals : Write(o, i, v)
+           \/ \E n \in 0..MaxLen, i \in 1..MaxLen : ResizeFillFrom(o, n, i)
            \/ CopyConstruct(o) \/ CopyAssign(o) \/ MoveConstruct(o) \/ MoveAssign(o) \/ Swap(o) \/ Destroy(o)
 ASpec == AInit /\ [][ANext]_avars
 
